@@ -12,12 +12,15 @@ two proved stages — a target file's table holds exactly the features the dispa
 namespace Texel.C13
 open Texel
 
-/-- the flag → behaviour plumbing of `main.go`, as extracted by `trgen flags` from the current source -/
+/-- the flag → behaviour plumbing of `main.go`, as extracted by `trgen flags` from the current source; every flag has its alias and is also read
+from the environment variable named after itself (`env:`) -/
 theorem flags_match :
     Gen.Flags.configPlumbing = ["KeepPointsAndLines=Bool:keeppointsandlines", "IgnoreOutsideGrid=Bool:ignoreoutsidegrid", "ReverseWindingOrder=Bool:reversewindingorder"] ∧
     Gen.Flags.localPlumbing = ["overwrite=Bool:overwrite", "pagesize=Int:pagesize"] ∧
-    Gen.Flags.flags = ["BoolFlag ignoreoutsidegrid iog", "BoolFlag keeppointsandlines pl", "BoolFlag overwrite o", "BoolFlag reversewindingorder rwo",
-      "IntFlag pagesize p", "StringFlag sourceGpkg s", "StringFlag targetGpkg t", "StringFlag tilematrices z", "StringFlag tilematrixset tms"] ∧
+    Gen.Flags.flags = ["BoolFlag ignoreoutsidegrid iog env:ignoreoutsidegrid", "BoolFlag keeppointsandlines pl env:keeppointsandlines",
+      "BoolFlag overwrite o env:overwrite", "BoolFlag reversewindingorder rwo env:reversewindingorder", "IntFlag pagesize p env:pagesize",
+      "StringFlag sourceGpkg s env:sourceGpkg", "StringFlag targetGpkg t env:targetGpkg", "StringFlag tilematrices z env:tilematrices",
+      "StringFlag tilematrixset tms env:tilematrixset"] ∧
     Gen.Flags.defaults = ["ignoreoutsidegrid=false", "keeppointsandlines=false", "pagesize=1000", "reversewindingorder=false"] ∧
     Gen.Flags.validateOrder = ["IsQuadTree", "DeviationStats"] := by decide +kernel
 
